@@ -81,6 +81,9 @@ func Start(id string) *Run {
 		}
 	}
 	r.loadKnown()
+	if c := os.Getenv("VERIF_NOTE_CRASH"); c != "" {
+		r.Cov["parallel_run_crashed"] = c + " - this result is from the complete re-run with one worker"
+	}
 	return r
 }
 
